@@ -477,8 +477,8 @@ func (g *Gen) genPkg(nfiles int, prefix string, used map[string]bool) Pkg {
 	nfuncs := 1 + r.Intn(5)
 	for i := 0; i < nfuncs; i++ {
 		d := FuncDecl{Name: g.name(used), Params: g.params(true), Results: g.results(true)}
-		if r.Chance(1, 4) {
-			d.Doc = d.Name + " does something.\nSecond line `with` \"quotes\"."
+		if r.Chance(1, 2) {
+			d.Doc = g.doc(d.Name)
 		}
 		if g.BadSigs && r.Chance(1, 4) {
 			if r.Bool() {
@@ -516,11 +516,52 @@ func (g *Gen) genPkg(nfiles int, prefix string, used map[string]bool) Pkg {
 			if g.BadSigs && r.Chance(1, 8) {
 				d.Name = strings.ToLower(d.Name[:1]) + d.Name[1:]
 			}
+			if r.Chance(1, 3) {
+				d.Doc = g.doc(d.Name)
+			}
 			pf := pick()
 			pf.Funcs = append(pf.Funcs, d)
 		}
 	}
+	// package comments (the description shown by -l): in any subset of the files
+	for i := range files {
+		if r.Chance(1, 4) {
+			files[i].PkgDoc = []string{"Build tooling for the project.", "Package comment of " + files[i].Name + "\nwith a second line.",
+				"  indented   words  ", "One.\n\nTwo paragraphs with \"quotes\" and 100%."}[r.Intn(4)]
+		}
+	}
 	return Pkg{Files: files}
+}
+
+// doc makes a doc comment for a declaration: with and without the declaration's own name in front (any case), one or
+// several sentences and paragraphs, text that needs quoting.
+func (g *Gen) doc(name string) string {
+	r := g.R
+	switch r.Intn(12) {
+	case 0:
+		return name + " does something.\nSecond line `with` \"quotes\"."
+	case 1:
+		return strings.ToLower(name) + " builds things"
+	case 2:
+		return "Does the work without naming itself. Second sentence."
+	case 3:
+		return name
+	case 4:
+		return name + "s the thing (not the name itself)."
+	case 5:
+		return "First paragraph\nstill first.\n\nSecond paragraph."
+	case 6:
+		return strings.ToUpper(name) + "  two spaces, a\ttab and 100% of a back\\slash."
+	case 7:
+		return "Deprecated: use something else."
+	case 8:
+		return name + " handles e.g. this case. And more."
+	case 9:
+		return "  leading spaces and trailing  "
+	case 10:
+		return name + " prints naïve résumés — with a dash."
+	}
+	return name + " does something."
 }
 
 // Targets lists the valid targets of a package as the spec defines them (for choosing defaults/aliases/words).
